@@ -368,7 +368,15 @@ def run_cases(ctx, cases, with_model=True):
             elif k == "mul":
                 line = {"op": "mul", "a": val(real_conj(c["a"])), "c": c["c"]}
             elif k == "tokens":
-                line = {"op": "parse", "toks": c["toks"]}
+                # `\d+` and `\d+(G|M)?` overlap lexically: the class of a bare number is decided by its position
+                toks = [dict(t) for t in c["toks"]]
+                for i, t in enumerate(toks):
+                    after_mem = i >= 2 and toks[i - 1]["k"] == "=" and toks[i - 2]["k"] == "mem"
+                    if t["k"] == "num" and after_mem:
+                        toks[i] = {"k": "memlit", "n": t["n"], "sfx": ""}
+                    elif t["k"] == "memlit" and t.get("sfx", "") == "" and not after_mem:
+                        toks[i] = {"k": "num", "n": t["n"]}
+                line = {"op": "parse", "toks": toks}
             else:
                 line = {"op": "text", "alts": c["alts"]}
         except (ValueError, IndexError) as e:  # a generated request with no programmatic form (empty cuda()/cpu())
